@@ -609,3 +609,134 @@ C18 = dict(
                  "extension-typed attributes are not in schema Sc2"],
 )
 FAMILIES["C18"] = C18
+
+
+# ----------------------------------------------------------------- C20
+_ROBUST_CORPUS = dict(
+    policy=['@id("a") permit(principal == User::"u1", action in [Action::"view"], resource is Doc in Group::"g") when { principal.n + -1 < 3 && context.flag } unless { resource.owner has mgr.n || [1, "a\\u{1F600}"].contains(principal.getTag("k")) };',
+            'forbid(principal, action, resource) when { if ip("10.0.0.1/8").isInRange(ip("10.0.0.0/8")) then decimal("1.5").lessThan(decimal("2.0")) else principal like "a\\*b*" };',
+            'permit(principal == ?principal, action, resource in ?resource) when { {a: 1, "b c": [User::"u1"]}.a == 1 };'],
+    schema=['entity User in [Group] { n: Long, opt?: Long, mgr?: User, rec: { inner?: Long } } tags Long;\nentity Group;\nentity Doc { owner: User, pub: Bool };\ntype T = Set<{a: Long}>;\nentity Color enum ["r", "g"];\naction view appliesTo { principal: [User], resource: [Doc], context: { flag: Bool, lim?: Long } };\nnamespace N { entity E; action "a b" in [Action::"view"]; }'],
+    json=['{"effect":"permit","principal":{"op":"==","entity":{"type":"User","id":"u1"}},"action":{"op":"in","entities":[{"type":"Action","id":"view"}]},"resource":{"op":"is","entity_type":"Doc","in":{"entity":{"type":"Group","id":"g"}}},"conditions":[{"kind":"when","body":{"&&":{"left":{"<":{"left":{"+":{"left":{".":{"left":{"Var":"principal"},"attr":"n"}},"right":{"Value":1}}},"right":{"Value":3}}},"right":{"has":{"left":{"Var":"context"},"attr":"flag"}}}}},{"kind":"unless","body":{"like":{"left":{"Value":"s"},"pattern":["Wildcard",{"Literal":"a"}]}}}],"annotations":{"id":"x"}}',
+          '[{"uid":{"type":"User","id":"u1"},"attrs":{"n":1,"rec":{"inner":2},"mgr":{"__entity":{"type":"User","id":"u2"}},"d":{"__extn":{"fn":"decimal","arg":"1.5"}}},"parents":[{"type":"Group","id":"g"}],"tags":{"k":1}},{"uid":{"type":"Group","id":"g"},"attrs":{},"parents":[]}]',
+          '{"":{"entityTypes":{"User":{"memberOfTypes":["Group"],"shape":{"type":"Record","attributes":{"n":{"type":"Long"},"opt":{"type":"Long","required":false},"s":{"type":"Set","element":{"type":"Entity","name":"User"}}}},"tags":{"type":"Long"}},"Group":{},"Color":{"enum":["r","g"]}},"actions":{"view":{"appliesTo":{"principalTypes":["User"],"resourceTypes":["User"],"context":{"type":"Record","attributes":{"flag":{"type":"Boolean"}}}},"memberOf":[{"id":"all"}]},"all":{}},"commonTypes":{"T":{"type":"Long"}}}}',
+          '{"principal":{"type":"User","id":"u1"},"action":{"type":"Action","id":"view"},"resource":{"type":"Doc","id":"d"},"context":{"flag":true},"policies":{"staticPolicies":{"a":"permit(principal, action, resource);"},"templates":{"t":"permit(principal == ?principal, action, resource);"},"templateLinks":[{"templateId":"t","newId":"l","values":{"?principal":{"type":"User","id":"u1"}}}]},"entities":[],"validateRequest":true}',
+          '{"flag": true, "lim": 3, "x": {"__entity": {"type": "User", "id": "a"}}}'],
+)
+
+
+def _json_mutants(doc, rnd, n):
+    """structure-aware mutations of a JSON document: wrong-type leaf, missing key, extra key, duplicated/empty containers"""
+    import copy
+    out = []
+    paths = []
+
+    def walk(x, path):
+        paths.append(path)
+        if isinstance(x, dict):
+            for k in x:
+                walk(x[k], path + [k])
+        elif isinstance(x, list):
+            for i, v in enumerate(x):
+                walk(v, path + [i])
+    walk(doc, [])
+    leaves = [1, -1, 1.5, True, None, "", "x", [], {}, [[]], {"__entity": 1}, {"__extn": {"fn": "ip", "arg": 1}}, 9223372036854775808, "퟿"]
+    for _ in range(n):
+        d = copy.deepcopy(doc)
+        p = rnd.choice(paths)
+        if not p:
+            out.append(rnd.choice(leaves))
+            continue
+        parent = d
+        for k in p[:-1]:
+            parent = parent[k]
+        k = p[-1]
+        m = rnd.randint(0, 4)
+        if m == 0:
+            parent[k] = rnd.choice(leaves)
+        elif m == 1:
+            if isinstance(parent, dict):
+                del parent[k]
+            else:
+                parent.pop(k)
+        elif m == 2 and isinstance(parent, dict):
+            parent[rnd.choice(["zzz", "__entity", "__extn", "__expr", "type", ""])] = rnd.choice(leaves)
+        elif m == 3 and isinstance(parent, list):
+            parent.insert(k, copy.deepcopy(parent[k]))
+        else:
+            parent[k] = {"Value": parent[k]} if rnd.random() < 0.5 else [parent[k]]
+        out.append(d)
+    return out
+
+
+def _robust_extra(fam, tier, wd, seed):
+    import random, os, vlib
+    rnd = random.Random(seed * 31337 + 3)
+    n = 1500 if tier == "quick" else 60000
+    cases = []
+    k = 0
+    # structure-aware JSON mutants
+    for src in _ROBUST_CORPUS["json"]:
+        doc = json.loads(src)
+        for m in _json_mutants(doc, rnd, n // 5):
+            try:
+                cases.append(dict(id="j%d" % k, kind="json", text=json.dumps(m)))
+            except Exception:
+                pass
+            k += 1
+    # character / byte-level mutants of valid texts, through every text entry point
+    alphabet = ['"', "\\", "{", "}", "(", ")", "[", "]", "*", "\n", "\0", "‮", "\U0001F600", "@", ";", ":", "::", "?", "//", "/*", " ", "9223372036854775808", "\\u{", "\\x", "�", "é"]
+    for kind in ("policy", "schema", "json"):
+        for src in _ROBUST_CORPUS[kind]:
+            for _ in range(n // 6):
+                s = list(src)
+                for _ in range(rnd.randint(1, 3)):
+                    i = rnd.randrange(len(s) + 1)
+                    m = rnd.randint(0, 3)
+                    if m == 0 and s:
+                        del s[min(i, len(s) - 1)]
+                    elif m == 1:
+                        s.insert(i, rnd.choice(alphabet))
+                    elif m == 2 and s:
+                        j = min(i, len(s) - 1)
+                        s[j] = rnd.choice(alphabet)
+                    elif s:
+                        j = min(i, len(s) - 1)
+                        s[j:j + 1] = s[j:j + 1] * 2
+                cases.append(dict(id="m%d" % k, kind="any" if rnd.random() < 0.2 else kind, text="".join(s)))
+                k += 1
+    for i in range(n // 3):
+        cases.append(dict(id="p%d" % i, kind="protomut", seed=seed * 1000003 + i))
+    cpath = os.path.join(wd, "mut.cases.ndjson")
+    tpath = os.path.join(wd, "mut.trace.ndjson")
+    vlib.write_ndjson(cpath, cases)
+    vlib.conform("replay", "robust", cpath, tpath)
+    return [(tpath, "T:mutants", "Trace_Robust.tla")]
+
+
+def _mutate_robust(ev):
+    if ev.get("ev") != "Robust" or not ev.get("outcomes"):
+        return None
+    ev = json.loads(json.dumps(ev))
+    ev["outcomes"][0][1] = "panic:canary"
+    return ev
+
+
+C20 = dict(
+    family="robust", trace_module="Trace_Robust.tla", level="exploration",
+    models=[dict(name="mc_tokens", module="MC_Tokens.tla", cfg=dict(quick="MC_Tokens_quick.cfg", thorough="MC_Tokens_thorough.cfg"),
+                 cases=lambda world, c, i: dict(id=i, kind=c["kind"], tokens=c["tokens"]))],
+    extra_traces=_robust_extra,
+    nontrivial=lambda ev: ev.get("ev") == "Robust" and any(o[1] == "ok" for o in ev.get("outcomes", [])),
+    key=lambda ev: [ev.get("kind"), ev.get("input")],
+    mutate=_mutate_robust, chunk=4000,
+    rule="G (TLC-enumerated): every token sequence of length <= SeqLen over the policy-language (56 tokens), Cedar-schema (32) and JSON-structure (22) alphabets, every sequence of "
+         "length <= HoleLen placed in 12 valid skeletons (condition, scope, annotation, entity shape, appliesTo, type alias, namespace, JSON policy body, entity attrs, context), and "
+         "nesting towers of depth 1..48 of 18 bracketing constructs; T (seeded): structure-aware mutants of JSON policy / entities / schema / FFI-call / context documents "
+         "(wrong-type leaf, missing key, extra or reserved key, duplicated element, wrapped value), character-level mutants of valid policy / schema / JSON texts incl. NUL, "
+         "non-BMP, bidi and lone escapes, and bit-flip / truncation / insertion mutants of valid protobuf encodings. Every input goes through every text/JSON/bytes entry point of "
+         "its kind (up to 37 entry points) each under its own catch_unwind, and on success through print, to_json, PST, protobuf, validate (3 modes), authorize, partial authorize, "
+         "link, TPE, format; every error is rendered with Display and as a miette report. non-trivial = at least one entry point accepted the input.",
+    assumptions=["exploration, not exhaustiveness: arbitrary byte strings beyond these generators are not covered", "nesting depth <= 48"],
+)
+FAMILIES["C20"] = C20
